@@ -135,6 +135,17 @@ class SymDict:
         return SymDict(self.present, self.val, self.nonempty)
 
 
+class SymAtts:
+    """heap dict whose keys are attribute names (possibly symbolic: Sym 'attkey'): its contents as a term of the Atts datatype"""
+    __slots__ = ("t",)
+
+    def __init__(self, t):
+        self.t = t
+
+    def clone(self):
+        return SymAtts(self.t)
+
+
 class FuncV:
     """Closure over a lambda / nested def of the real source."""
     __slots__ = ("node", "env", "name", "module")
@@ -185,7 +196,7 @@ class OpaqueV:
         self.kind = kind
 
 
-SORT_OF_TAG = {"optint": T.OptInt, "line": T.I, "optline": T.I, "int": T.I, "bool": T.B, "str": T.SI, "bytes": T.SI, "chunk": T.ChunkS, "atts": T.Atts,
+SORT_OF_TAG = {"attkey": T.I, "attval": T.I, "optint": T.OptInt, "line": T.I, "optline": T.I, "int": T.I, "bool": T.B, "str": T.SI, "bytes": T.SI, "chunk": T.ChunkS, "atts": T.Atts,
                "fmtstr": T.FmtS, "item": T.ItemS, "cell": T.Cell}
 SEQ_OF_TAG = {"int": T.SI, "chunk": T.SCh, "fmtstr": T.SF, "item": T.SItem, "cell": T.SC}
 
